@@ -1261,6 +1261,12 @@ class Explore:
                     pr_ = s_["r"]["op"]["p"]
                     if len(pr_["proj"]) == 1 and pr_["proj"][0]["k"] == "field" and pr_["l"] in cand:
                         reads_comp.add(pr_["l"])
+        for b in fn.blocks:
+            t_ = b["term"]
+            if t_["k"] == "switch" and t_["d"]["k"] in ("move", "copy"):
+                pr_ = t_["d"]["p"]
+                if len(pr_["proj"]) == 1 and pr_["proj"][0]["k"] == "field" and pr_["l"] in cand:
+                    reads_comp.add(pr_["l"])
         grow = set(reads_comp)
         frontier = list(reads_comp)
         while frontier:
@@ -1422,8 +1428,8 @@ class Explore:
                 v = r["vidx"]
                 if l in self._enum_tracked and len(r["ops"]) == 1:
                     pv = self._value_of(r["ops"][0], tuple(st.items()))
-                    if isinstance(pv, tuple) and not isinstance(pv, EV):
-                        v = EV(r["vidx"], pv)
+                    if pv is not None and not isinstance(pv, EV):
+                        v = EV(r["vidx"], pv)      # Ok(true), Some((ms, clipped)): the payload travels with the variant
             elif r["k"] == "use":
                 v = self._value_of(r["op"], tuple(st.items()))
                 if v is None:
@@ -1442,12 +1448,14 @@ class Explore:
                     # x? of a followed x: Ok / Some continue, Err / None break
                     a0 = t["args"][0]
                     if a0["k"] in ("copy", "move") and not a0["p"]["proj"] and a0["p"]["l"] in st and st[a0["p"]["l"]] is not None:
-                        sv = st[a0["p"]["l"]]
-                        sv = sv.vidx if isinstance(sv, EV) else sv
+                        sv0 = st[a0["p"]["l"]]
+                        sv = sv0.vidx if isinstance(sv0, EV) else sv0
                         if "std::result::Result" in callee_str(t["f"]):
                             v = sv
                         elif "std::option::Option" in callee_str(t["f"]):
                             v = 1 - sv if sv in (0, 1) else None
+                        if v == 0 and isinstance(sv0, EV) and t["dest"]["l"] in self._enum_tracked:
+                            v = EV(0, sv0.payload)     # Continue(payload)
                 if v is None and "FromResidual" in callee_str(t["f"]) and callee_str(t["f"]).endswith("::from_residual"):
                     # the residual of `?` converted back: an Err (a None)
                     v = 1 if "std::result::Result" in callee_str(t["f"]) else (0 if "std::option::Option" in callee_str(t["f"]) else None)
